@@ -120,6 +120,27 @@ func writeObj(t *testing.T, src *source, b storage.BucketHandle, name string, da
 	})
 }
 
+// copyObj runs storage.Copy between two objects of the buckets under test.
+// It returns whether the copy succeeded and, if not, whether the error is
+// ErrObjectNotExist; err is set only for a panic or hang.
+func copyObj(dst storage.BucketHandle, dname string, src storage.BucketHandle, sname string) (ok, notExist bool, cerr string, err error) {
+	err = guard(func() (e error) {
+		defer func() {
+			if r := recover(); r != nil {
+				e = fmt.Errorf("panic: %v", r)
+			}
+		}()
+		ce := storage.Copy(context.Background(), dst.Object(dname), src.Object(sname))
+		ok = ce == nil
+		if ce != nil {
+			notExist = errors.Is(ce, storage.ErrObjectNotExist)
+			cerr = ce.Error()
+		}
+		return nil
+	})
+	return
+}
+
 // readObj returns (data, exists, err): err is nil both for a successful read
 // and for a not-exist answer.
 func readObj(b storage.BucketHandle, name string) (data []byte, exists bool, err error) {
@@ -193,6 +214,8 @@ type rstep struct {
 	Data   string                       `json:"data"`
 	Prefix string                       `json:"prefix"`
 	Style  string                       `json:"style"`
+	SB     string                       `json:"sb"`    // copy: source bucket
+	SName  string                       `json:"sname"` // copy: source name
 	Exists bool                         `json:"exists"` // read: expected
 	Want   string                       `json:"want"`   // read: expected data id
 	List   []string                     `json:"list"`   // list: expected names
@@ -284,6 +307,14 @@ func TestVerifC18Replay(t *testing.T) {
 			case "write":
 				if err := writeObj(t, src, bk[st.B], st.Name, datas[st.Data], st.Style); err != nil {
 					bad("write-error", rt.M{"err": err.Error()})
+				}
+			case "copy":
+				ok, _, cerr, err := copyObj(bk[st.B], st.Name, bk[st.SB], st.SName)
+				switch {
+				case err != nil:
+					bad("copy-error", rt.M{"err": err.Error(), "sb": st.SB, "sname": st.SName})
+				case ok != st.Exists:
+					bad("copy-result", rt.M{"want_ok": st.Exists, "got_ok": ok, "copy_err": cerr, "sb": st.SB, "sname": st.SName})
 				}
 			case "read":
 				d, ex, err := readObj(bk[st.B], st.Name)
@@ -393,6 +424,25 @@ func properPathPrefix(a, b string) bool {
 	return len(a) < len(b) && strings.HasPrefix(b, a+"/")
 }
 
+// diskOf lists the complete file tree below the parent of the storage root as
+// records (bucket, name components, data id).
+func diskOf(parent string, dataID func([]byte) string) []rt.M {
+	disk := []rt.M{}
+	for p, c := range snapshot(parent) {
+		parts := strings.Split(p, "/")
+		if len(parts) >= 3 && parts[0] == "root" {
+			var cs [][]string
+			for _, c := range parts[2:] {
+				cs = append(cs, chars(c))
+			}
+			disk = append(disk, rt.M{"b": parts[1], "name": cs, "data": dataID(c)})
+		} else {
+			disk = append(disk, rt.M{"b": "<outside:" + p + ">", "name": [][]string{}, "data": dataID(c)})
+		}
+	}
+	return disk
+}
+
 // TestVerifC18Random runs random operation histories against real FSBuckets
 // and records every operation with its observed result (and, for writes, the
 // complete file tree) for validation by StorageTrace.tla.
@@ -480,7 +530,35 @@ func TestVerifC18Random(t *testing.T) {
 		for i := 0; i < in.Ops; i++ {
 			b := bnames[r.Intn(len(bnames))]
 			n := pool[r.Intn(len(pool))]
-			switch k := r.Intn(10); {
+			switch k := r.Intn(12); {
+			case k >= 10: // copy n <- m (same bucket or across), source stored or absent
+				sb := bnames[r.Intn(len(bnames))]
+				m := pool[r.Intn(len(pool))]
+				if r.Intn(3) > 0 && len(stored[sb]) > 0 { // prefer a stored source
+					var ks []string
+					for x := range stored[sb] {
+						ks = append(ks, x)
+					}
+					sort.Strings(ks)
+					m = ks[r.Intn(len(ks))]
+				}
+				if !usable(b, n) || !usable(sb, m) || (b == sb && n == m) {
+					continue
+				}
+				ok, ne, cerr, err := copyObj(bk[b], n, bk[sb], m)
+				rec := rt.M{"kind": "obs", "op": "copy", "h": h, "b": b, "name": comps(n), "sb": sb, "sname": comps(m), "ok": ok && err == nil,
+					"notexist": ne, "text": n + " <- " + sb + ":" + m}
+				if err != nil {
+					rec["err"] = err.Error()
+				} else if cerr != "" {
+					rec["err"] = cerr
+				}
+				rec["disk"] = diskOf(parent, dataID)
+				rt.Out(rec)
+				if ok && err == nil {
+					stored[b][n] = true
+				}
+				nops++
 			case k < 4: // write
 				if !usable(b, n) {
 					continue
@@ -509,21 +587,7 @@ func TestVerifC18Random(t *testing.T) {
 				if err != nil {
 					rec["err"] = err.Error()
 				}
-				// the complete file tree below the parent of the storage root
-				disk := []rt.M{}
-				for p, c := range snapshot(parent) {
-					parts := strings.Split(p, "/")
-					if len(parts) >= 3 && parts[0] == "root" {
-						var cs [][]string
-						for _, c := range parts[2:] {
-							cs = append(cs, chars(c))
-						}
-						disk = append(disk, rt.M{"b": parts[1], "name": cs, "data": dataID(c)})
-					} else {
-						disk = append(disk, rt.M{"b": "<outside:" + p + ">", "name": [][]string{}, "data": dataID(c)})
-					}
-				}
-				rec["disk"] = disk
+				rec["disk"] = diskOf(parent, dataID)
 				rt.Out(rec)
 				stored[b][n] = true
 				nops++
